@@ -31,6 +31,9 @@ def plan(tier, seed):
     sh += [{"kind": "events", "part": p, "of": ne} for p in range(ne)]
     sh.append({"kind": "reject"})
     sh.append({"kind": "coverage"})
+    # an application that derives its own classes from the library's (a traced command, a labelled address): every *other*
+    # class must round-trip exactly as before, a derived class may only stand in for its own parent
+    sh += [{"kind": "cmds", "part": p, "of": 4, "usersub": True} for p in range(4)]
     return sh
 
 
@@ -66,6 +69,8 @@ class Table:
                                {"len": n, "dt": dt, "frame": v, "a": repr(old), "b": repr(canon)})
 
 
+USERSUB = set()       # classes an application derived from library classes (usersub shards only)
+_THIN = [0]
 _PRIME = [0]
 PRIMERS = [(16, 0xC100 + n) for n in (1, 2, 3, 4, 5, 6, 7, 8, 0, 255)] + [(16, 0xA300), (16, 0xC355), (16, 0xA500),
                                                                           (24, 0xC13001), (24, 0xC10000), (24, 0xC50102)]
@@ -74,6 +79,10 @@ PRIMERS = [(16, 0xC100 + n) for n in (1, 2, 3, 4, 5, 6, 7, 8, 0, 255)] + [(16, 0
 def roundtrip(res, table, cls, build, canon, fields, dt=None, dmap=None, ctx=None):
     """build() -> object; fields(obj) -> comparable tuple (by kind/number); compare with the decoded object."""
     from dali import command
+    if USERSUB:
+        _THIN[0] += 1
+        if _THIN[0] % 4:
+            return            # the usersub pass visits every class on a quarter of the arguments
     res.evaluations += 1
     try:
         obj = build()
@@ -103,7 +112,9 @@ def roundtrip(res, table, cls, build, canon, fields, dt=None, dmap=None, ctx=Non
                       {"cls": cls.__name__, "args": repr(canon), "frame": v, "tb": short_tb(e)})
         return
     res.hit("roundtrips")
-    if type(back) is not cls:
+    if USERSUB and type(back) in USERSUB and issubclass(type(back), cls):
+        res.hit("usersub_stand_ins")
+    elif type(back) is not cls:
         res.violation(f"C02/class-differs/{cls.__name__}",
                       f"{cls.__name__}{canon} -> frame {v:#x} -> decodes as {type(back).__name__} ({back})",
                       {"cls": cls.__name__, "args": repr(canon), "frame": v, "decoded": str(back)})
@@ -123,6 +134,8 @@ def roundtrip(res, table, cls, build, canon, fields, dt=None, dmap=None, ctx=Non
     if fa[:len(canon)] != tuple(canon)[:len(fa)] and canon and fa and False:
         pass
     sa, sb = str(obj), str(back)
+    if type(back) is not cls:
+        sb = sb.replace(type(back).__name__, cls.__name__, 1)     # an accepted stand-in prints under its own name
     if sa != sb:
         res.violation(f"C02/text-differs/{cls.__name__}", f"text {sa!r} decodes back as {sb!r}",
                       {"cls": cls.__name__, "args": repr(canon), "frame": v})
@@ -160,6 +173,26 @@ def cmd_fields(obj):
 
 # --------------------------------------------------------------------------- commands
 
+def define_user_subclasses():
+    """What an application may do with the public classes: derive its own."""
+    from dali import address
+    import dali.gear.general as gg
+    import dali.gear.led as led
+    import dali.gear.colour as colour
+    import dali.device.general as dg
+    import dali.device.pushbutton as pb
+    if USERSUB:
+        return
+    bases = [gg.GoToScene, gg.Off, gg.QueryStatus, gg.SetScene, gg.DTR0, gg.QueryGroupsZeroToSeven, gg.AddToGroup, led.QueryGearType,
+             colour.Activate, dg.IdentifyDevice, dg.QueryInstanceType, dg.DTR1, dg.SetEventFilter, pb.ButtonPressed]
+    for k, b in enumerate(bases):
+        USERSUB.add(type(f"Traced{b.__name__}", (b,), {"__module__": "application"}))
+    # labelled addresses: they are addresses like their parents and never take part in decoding
+    for b in (address.GearShort, address.GearGroup, address.DeviceShort, address.DeviceGroup, address.InstanceNumber,
+              address.InstanceGroup, address.InstanceType, address.FeatureInstanceNumber):
+        type(f"Labelled{b.__name__}", (b,), {"__module__": "application"})
+
+
 def run_cmds(desc, tier, seed, res):
     from dali import address
     from spec import iec62386_tables as T
@@ -168,6 +201,9 @@ def run_cmds(desc, tier, seed, res):
     table = Table(res)
     quick = tier == "quick"
     r = rng(seed, "C02", "cmds", desc["part"])
+    if desc.get("usersub"):
+        define_user_subclasses()
+        quick = True
     gear_objs = R.all_gear(address)
     dev_objs = R.all_device(address)
     insts = R.all_instances(address)
@@ -300,8 +336,21 @@ def run_events(desc, tier, seed, res):
                   ctx=(itype if sname == "device_instance" else None))
 
     for sname, kw in schemes:
-        for cls in pb_classes:
+        for ci, cls in enumerate(pb_classes):
             go(cls, sname, kw, None, 1, (), datakw=False)
+            # the class is the event: a data= argument cannot turn it into another class's frame (accepted and ignored, or refused)
+            for dval in (0, 1, (ci * 3 + 2) % 16, 1023):
+                res.hit("pushbutton_data_argument")
+                try:
+                    e = cls(data=dval, **kw)
+                except Exception:
+                    continue
+                plain = cls(**kw)
+                if e.frame != plain.frame:
+                    res.violation(f"C02/event-data-argument/{cls.__name__}",
+                                  f"{cls.__name__}(data={dval}, {kw}) emits {e.frame.as_integer:#08x}, without the argument "
+                                  f"{plain.frame.as_integer:#08x}: the frame of another event", {"cls": cls.__name__, "data": dval})
+                    break
         for t in occ_tuples:
             go(occupancy.OccupancyEvent, sname, kw, t, 3, (tuple(t),))
         for d in (range(16) if not quick else (0, 5, 10, 15)):
